@@ -369,6 +369,15 @@ func c13Tree(c *harness.Check, cs lineCase) string {
 		}
 		if int(ferr.Line()) != cs.WantLine || ferr.Filepath() != wantPath {
 			failure = fmt.Sprintf("render error reports %s:%d, the construct is at %s:%d (%s)", ferr.Filepath(), ferr.Line(), wantPath, cs.WantLine, ferr.Message())
+			return
+		}
+		// the error as text (what a log shows) names the same file and line
+		for _, text := range []string{ferr.String(), ferr.Error().Error()} {
+			line, path, ok := errLine(text)
+			if !ok || line != cs.WantLine || path != wantPath {
+				failure = fmt.Sprintf("the text of the render error reads %q, the construct is at %s:%d", clip(text, 300), wantPath, cs.WantLine)
+				return
+			}
 		}
 	})
 	if pi != nil {
@@ -397,7 +406,7 @@ func TestC13_Trees(t *testing.T) {
 		scenario := rapid.SampledFrom([]string{"page-top", "page-insert-block", "page-slot-body", "page-component-arg", "layout-parse", "component-parse", "page-parse", "undefined-insert", "unknown-component", "nolayout-page", "page-after-nested-render", "unknown-component-in-component-file", "unknown-component-in-layout-file"}).Draw(rt, "scenario")
 		// the page's name may itself end in the extension (file report.tw.tw), or sit in a directory
 		// (names that sort before and after those of the component and layout files: files are loaded in name order)
-		pageName := rapid.SampledFrom([]string{"page", "page", "report.tw", "sub/deep.er/page", "about", "a/b"}).Draw(rt, "pageName")
+		pageName := rapid.SampledFrom([]string{"page", "page", "report.tw", "sub/deep.er/page", "about", "a/b", "50%off/page", "my%20site/p%d", "q?x=1&y/page", "sp ace/pa ge"}).Draw(rt, "pageName")
 		cs := lineCase{Fault: ff.kind, Page: pageName, WantFile: "t/" + pageName + ".tw"}
 		compUse := func(arg, slotBody string) string {
 			return "@component(\"comp\", {arg: " + arg + "})\n@slot(\"s\")" + slotBody + "@end\n@slot in default@end\n@end\n"
